@@ -35,6 +35,12 @@ const progSrc = `BEGIN { RS = RSV() } { printf "%d %s %s\n", NR, H($0), H(RT) }`
 // RS assigned by the action of record K while the (regex) splitter of the file is active
 const progSrc2 = `BEGIN { RS = RSV() } { printf "%d %s %s\n", NR, H($0), H(RT) } NR == K() { RS = RSV2() }`
 
+// Other scanners used between two records of the main input: getline from one or two side files,
+// or from a command.  The main record stream must not notice.
+const progSrc3 = `BEGIN { RS = RSV() } { printf "%d %s %s\n", NR, H($0), H(RT) }
+NR == K() { op = OP(); f = SIDE(); g = SIDE2(); c = CMD()
+  if (op == 1) { getline x < f } else if (op == 2) { getline x < f; getline y < g; getline x < f } else if (op == 3) { c | getline x } }`
+
 // ---------------------------------------------------------------- chunk reader
 
 type chunkReader struct {
@@ -70,15 +76,19 @@ func (c *chunkReader) Read(p []byte) (int, error) {
 
 // ---------------------------------------------------------------- running the implementation
 
-var curRS, curRS2 string
-var curK int
+var curRS, curRS2, curSide, curSide2, curCmd string
+var curK, curOp int
 var funcs = map[string]any{
-	"H":    func(s string) string { return hx.HexS(s) },
-	"RSV":  func() string { return curRS },
-	"RSV2": func() string { return curRS2 },
-	"K":    func() int { return curK },
+	"H":     func(s string) string { return hx.HexS(s) },
+	"RSV":   func() string { return curRS },
+	"RSV2":  func() string { return curRS2 },
+	"K":     func() int { return curK },
+	"OP":    func() int { return curOp },
+	"SIDE":  func() string { return curSide },
+	"SIDE2": func() string { return curSide2 },
+	"CMD":   func() string { return curCmd },
 }
-var prog, prog2 *parser.Program
+var prog, prog2, prog3 *parser.Program
 
 type rec struct{ s, rt string }
 
@@ -605,6 +615,23 @@ func replay(o hx.Opts) {
 	}
 	ref := runImpl(rs, data, oneCut(len(data)), false)
 	got := runImpl(rs, data, cuts, le)
+	if opf, ok := d["interleave_op"].(float64); ok { // another scanner read between main records
+		dir, sides := sideFiles()
+		defer os.RemoveAll(dir)
+		n1, n2, k := int(d["side_len"].(float64)), int(d["side2_len"].(float64)), int(d["k"].(float64))
+		setSide(int(opf), sides[n1], sides[n2])
+		got = runProg(prog3, rs, "", k, data, cuts, le)
+		curOp = 0
+		ref = runProg(prog3, rs, "", k, data, cuts, le)
+		fmt.Printf("replay class=%q\nprogram: %s\nRS=%q K=%d op=%d (1: getline<file, 2: two files, 3: cmd|getline) side file %d bytes of Z, second %d bytes of Y\ninput=%q reads=%v\nwithout the side reads: %s\nwith the side reads:    %s\n",
+			doc.Failure.Class, progSrc3, rs, k, int(opf), n1, -n2, string(data), cuts, clip(ref.canon()), clip(got.canon()))
+		if got.canon() != ref.canon() {
+			fmt.Println("STILL FAILS: the main-input records change when another scanner is read in between")
+			os.Exit(1)
+		}
+		fmt.Println("no longer fails")
+		return
+	}
 	if h, ok := d["rs2_hex"].(string); ok { // RS assigned mid-file
 		rs2, k := string(hx.UnHex(h)), int(d["k"].(float64))
 		ref = runProg(prog2, rs, rs2, k, data, oneCut(len(data)), false)
@@ -651,12 +678,17 @@ func main() {
 		fmt.Println("cannot parse the harness program:", err)
 		os.Exit(2)
 	}
+	prog3, err = parser.ParseProgram([]byte(progSrc3), &parser.ParserConfig{Funcs: funcs})
+	if err != nil {
+		fmt.Println("cannot parse the harness program:", err)
+		os.Exit(2)
+	}
 	if o.Replay != "" {
 		replay(o)
 		return
 	}
 	rep := hx.NewReport("C07", o.Seed, o.Tier)
-	rep.Rule = "per RS kind (newline, 6 single bytes incl. NUL and 0xFF, empty, 1 multi-byte char, 8 regexes): every input up to 4 (thorough 5) alphabet units x EVERY chunking; random inputs up to 8 (thorough 12) bytes x every chunking; 15-55 byte inputs x every single split point, bytewise delivery, random chunkings with 0-byte reads, final read with io.EOF; 100/101 empty reads; 64 KiB-edge inputs split at 65535/65536/65537 and by bufio itself. distinct = distinct (RS, input, reads) triple; non-trivial = non-empty input"
+	rep.Rule = "per RS kind (newline, 6 single bytes incl. NUL and 0xFF, empty, 1 multi-byte char, 8 regexes): every input up to 4 (thorough 5) alphabet units x EVERY chunking; random inputs up to 8 (thorough 12) bytes x every chunking; 15-55 byte inputs x every single split point, bytewise delivery, random chunkings with 0-byte reads, final read with io.EOF; 100/101 empty reads; 64 KiB-edge inputs split at 65535/65536/65537 and by bufio itself; interleaving: getline from side files of 1/300/5000/70000 bytes, from two files, from a command, between main records under whole/split/bytewise delivery. distinct = distinct (RS, input, reads) triple; non-trivial = non-empty input"
 	r := hx.NewRand(o.Seed)
 	ks := kinds()
 	// a few random regexes without anchors (Lib/Regex.v is validated against Go's regexp separately)
@@ -773,6 +805,8 @@ func main() {
 	}
 	lap("search")
 	schedCases(o, r, rep)
+	interleaveCases(o, r, rep, ks)
+	lap("interleave")
 	lap("sched")
 	rep.Write(o.Out)
 }
@@ -885,5 +919,123 @@ func checkRef(rep *hx.Report, k kase, ref result) {
 	}
 	if c, orc, want := reconstruct(one, ref); c != "" {
 		rep.Fail(hx.Failure{Class: c, Oracle: orc, Detail: detail(one, ref, want)})
+	}
+}
+
+// ---------------------------------------------------------------- interleaved scanners
+
+var sideSizes = []int{1, 300, 5000, 70000}
+
+// sideFiles writes one-record files of Z's (and of Y's, same sizes) into a fresh directory.
+func sideFiles() (dir string, byLen map[int]string) {
+	dir, err := os.MkdirTemp("", "c07side")
+	if err != nil {
+		panic(err)
+	}
+	byLen = map[int]string{}
+	for _, n := range sideSizes {
+		byLen[n] = dir + "/z" + strconv.Itoa(n)
+		os.WriteFile(byLen[n], bytes.Repeat([]byte("Z"), n), 0o644)
+		byLen[-n] = dir + "/y" + strconv.Itoa(n)
+		os.WriteFile(byLen[-n], bytes.Repeat([]byte("Y"), n), 0o644)
+	}
+	return
+}
+
+func setSide(op int, f, g string) {
+	curOp, curSide, curSide2, curCmd = op, f, g, "cat "+f
+}
+
+// The record stream of the main input must be a function of the main input's bytes only: reading
+// other files / commands with getline between two main records (their scanners have their own
+// buffers) must not change it - under every delivery of the main input.
+func interleaveCases(o hx.Opts, r *hx.Rand, rep *hx.Report, ks []rsKind) {
+	dir, sides := sideFiles()
+	defer os.RemoveAll(dir)
+	nin := 2
+	if o.Tier == "thorough" {
+		nin = 8
+	}
+	type ic struct {
+		k        *rsKind
+		data     string
+		cuts     []int
+		op, n, K int
+	}
+	var cs []ic
+	for i := range ks {
+		k := &ks[i]
+		var inputs []string
+		if len(k.edge) > 0 {
+			e := k.edge[0]
+			inputs = append(inputs, "l1"+e+"l2"+e+"l3"+e+"l4"+e)
+		}
+		for j := 0; j < nin; j++ {
+			inputs = append(inputs, randUnits(r, k.alpha, 12+r.Intn(20)))
+		}
+		for _, d := range inputs {
+			n := len(d)
+			ones := make([]int, n)
+			for q := range ones {
+				ones[q] = 1
+			}
+			p := 1 + r.Intn(n-1)
+			for _, cuts := range [][]int{{n}, {p, n - p}, ones} {
+				for _, K := range []int{1, 2} {
+					for _, sz := range sideSizes {
+						cs = append(cs, ic{k, d, cuts, 1, sz, K})
+					}
+					cs = append(cs, ic{k, d, cuts, 2, 300, K})
+					// the command inherits Stdin: os/exec drains our reader into its pipe, so only the
+					// delivery in one read (nothing left to drain) is meaningful here
+					if K == 1 && len(cuts) == 1 {
+						cs = append(cs, ic{k, d, cuts, 3, 300, K})
+					}
+				}
+			}
+		}
+	}
+	var lines []string
+	var results []result
+	refs := map[string]result{}
+	for _, c := range cs {
+		setSide(c.op, sides[c.n], sides[-sideSizes[1]])
+		got := runProg(prog3, c.k.rs, "", c.K, []byte(c.data), c.cuts, false)
+		results = append(results, got)
+		kk := kase{kind: c.k, data: []byte(c.data), cuts: c.cuts}
+		lines = append(lines, modelLine(kk, got))
+	}
+	model, err := hx.ModelEval(o.ModelRun, lines)
+	if err != nil {
+		rep.HarnessError("%v", err)
+		return
+	}
+	for i, c := range cs {
+		got := results[i]
+		rep.CorrEvals++
+		rep.Count("shape:interleaved-getline")
+		rep.Distinct(lines[i] + fmt.Sprint(c.op, c.n, c.K))
+		kk := kase{kind: c.k, data: []byte(c.data), cuts: c.cuts}
+		if strings.HasPrefix(model[i], "driver-error") {
+			rep.HarnessError("modelrun: %s on %s", model[i], clip(lines[i]))
+		} else if model[i] != got.canon() {
+			rep.Mismatch(hx.Mismatch{Class: c.k.name + "/interleaved-getline", Input: clip(lines[i]), Impl: clip(got.canon()), Model: clip(model[i]),
+				Note: fmt.Sprintf("op=%d side=%d K=%d", c.op, c.n, c.K)})
+		}
+		// search: the same program and delivery without the side reads (OP() = 0)
+		key := fmt.Sprintf("%s\x00%s\x00%v\x00%d", c.k.rs, c.data, c.cuts, c.K)
+		ref, ok := refs[key]
+		if !ok {
+			setSide(0, "", "")
+			ref = runProg(prog3, c.k.rs, "", c.K, []byte(c.data), c.cuts, false)
+			refs[key] = ref
+		}
+		rep.SearchEvals++
+		if got.canon() != ref.canon() {
+			d := detail(kk, got, clip(ref.canon()))
+			d["program"], d["interleave_op"], d["side_len"], d["side2_len"], d["k"] = progSrc3, c.op, c.n, -sideSizes[1], c.K
+			rep.Fail(hx.Failure{Class: "main-input records change when another scanner (getline from a file or command) is read between them",
+				Oracle: "records of a stream are a function of that stream's bytes only", Detail: d})
+		}
 	}
 }
